@@ -73,11 +73,17 @@ func newSnapshotRecording() error {
 	return nil
 }
 
+func processorStarted() bool {
+	mu.Lock()
+	defer mu.Unlock()
+	return processor != nil
+}
+
 // snapshotRecordingTriggers will make a snapshot when in the recording window and at the end of the recording window.
 func snapshotRecordingTriggers(window window.Window) {
 
 	// Wait for motion processor to start
-	for processor == nil {
+	for !processorStarted() {
 		time.Sleep(time.Second)
 	}
 
